@@ -1,0 +1,6 @@
+//go:build !verif
+// +build !verif
+
+package push
+
+func verifYield(point string, id string) {}
